@@ -198,8 +198,7 @@ func genC10(c *Corpus, pl pools, seed uint64, tier string) *RunSpec {
 					slot++
 				}
 			default:
-				op.Kind = "generate"
-				op.D = -1
+				op.Kind = "validate_cfg"
 			}
 			ops = append(ops, op)
 			nOps++
@@ -329,9 +328,6 @@ func genC06(c *Corpus, pl pools, seed uint64, tier string) *RunSpec {
 	for ti := 0; ti < nTasks; ti++ {
 		var ops []Op
 		ops = append(ops, Op{Kind: "validate_cfg", P: p, D: d, T: t, RC: rc, H: -1})
-		if r.chance(70) {
-			ops = append(ops, Op{Kind: "generate", P: p, D: -1, H: -1})
-		}
 		if r.chance(60) {
 			ops = append(ops, Op{Kind: "validate_cfg", P: p, D: d, T: t, RC: rc, H: -1})
 		}
@@ -341,7 +337,7 @@ func genC06(c *Corpus, pl pools, seed uint64, tier string) *RunSpec {
 			slot++
 		}
 		if r.chance(40) {
-			ops = append(ops, Op{Kind: "generate", P: p, D: -1, H: -1})
+			ops = append(ops, Op{Kind: "validate_cfg", P: p, D: d, T: t, RC: rc, H: -1})
 		}
 		sp.Tasks = append(sp.Tasks, ops)
 	}
